@@ -94,6 +94,7 @@ namespace ratio
     std::unordered_map<smt::var, atom *> all_atoms;                         // all the interesting atoms indexed by their sigma_xi variable..
     std::unordered_map<const atom *, smt::rational> dont_start, dont_end;   // the starting (ending) atoms which are not yet ready to start (end)..
     std::map<smt::inf_rational, std::unordered_set<atom *>> s_atms, e_atms; // for each pulse, the atoms starting/ending at that pulse..
+    std::unordered_set<const atom *> started_atms, ended_atms;              // the atoms whose start (end) has already been dispatched..
     std::set<smt::inf_rational> pulses;                                     // all the pulses of the plan..
     std::vector<executor_listener *> listeners;                             // the executor listeners..
   };
